@@ -184,6 +184,22 @@ def task_mw(L1, L2, prefix=""):
     return run_task(drv_mw, s, eng, lambda x: x, mk_replay(drv_mw, lambda x: x), False)
 
 
+def task_words(seps, via):
+    """word-structured names: k one-letter words (upper / lower case decides von vs. last) joined by ' ' or ', ' — reaches the
+    multi-word von / last / jr / first parts that free strings of the same budget do not (e.g. 'b, b b, A')"""
+    eng = Engine()
+    cs = ()
+    for i in range(len(seps) + 1):
+        cs += (eng.sym_char(f"w{i}", "Ab"),)
+        if i < len(seps):
+            cs += tuple(seps[i])
+    s = mk(cs)
+    if via == "fn":
+        return run_task(drv_fn, s, eng, lambda x: x, mk_replay(drv_fn, lambda x: x), True)
+    wrap = lambda x: mk(tuple(PRE) + chars(x) + tuple(POST))
+    return run_task(drv_stack, s, eng, wrap, mk_replay(drv_stack, lambda x: PRE + x + POST), False)
+
+
 PRE, POST = "@a{k, author = {", "}}"
 
 
@@ -223,6 +239,17 @@ def main():
                 chk.add_task(f"stack-L{L}-{a!r}", task_stack, L=L, prefix=a)
         else:
             chk.add_task(f"stack-L{L}", task_stack, L=L)
+    import itertools
+    KW = 5 if chk.tier == "quick" else 6
+    chk.bounds["word-structured names"] = f"2..{KW} one-letter words over {{A,b}} joined by every combination of ' ' and ', ' (function pair; up to 4 words through the whole stack)"
+    for k in range(KW, 1, -1):
+        for seps in itertools.product((" ", ", "), repeat=k - 1):
+            if sum(1 for x in seps if x == ", ") > 2:
+                continue
+            nm = "".join("s" if x == " " else "c" for x in seps)
+            chk.add_task(f"words-fn-{nm}", task_words, seps=seps, via="fn")
+            if k <= 4:
+                chk.add_task(f"words-stack-{nm}", task_words, seps=seps, via="stack")
     chk.run()
 
 
